@@ -231,7 +231,11 @@ func obligationChunks(ob *Obligation, prelude string) []*Script {
 	if ob.Cover {
 		// satisfiable as soon as one path is: try the first few paths separately
 		var out []*Script
-		for i := 0; i < len(ob.Cases) && i < 4; i++ {
+		step := 1
+		if len(ob.Cases) > 24 {
+			step = len(ob.Cases) / 24
+		}
+		for i := 0; i < len(ob.Cases); i += step {
 			sub := &Obligation{Name: ob.Name, Cover: true, Cases: ob.Cases[i : i+1]}
 			out = append(out, obligationScript(sub, prelude))
 			// the same path without its quantified facts (models of quantified formulas are hard to find)
